@@ -405,6 +405,43 @@ def rule_fill(fx, rep):
                 reaching = fill.reaching_defs(L, bb)
                 verdict = any(d in reaching for d in starts)
                 why = "inlined subset walk: the starting subset " + ("reaches" if verdict else "never reaches") + " the store (every stored subset has already been stepped past the start)" * (not verdict)
+                if verdict:
+                    # ... and the subset produced by the last step is stored too: where the walk can leave (reach the next start or
+                    # the return) after a step without passing the store, the leaving test must say that the walk has wrapped around
+                    # to its starting subset (which was stored first), not that it has reached some other subset
+                    from facts import switch_edge_conds
+                    start_bbs = {d[1] for d in starts}
+                    start_txt = set()
+                    for d in starts:
+                        if d[0] == "stmt" and d[3]["rv"]["k"] == "use":
+                            start_txt.add(show(deep_strip(fill.expr(d[3]["rv"]["op"], expand_named=True, at=d[1]))))
+                    for d in steps:
+                        S = d[1]
+                        nxt0 = [d[2]["target"]] if d[0] == "call" and "target" in d[2] else list(fill.succ(S))
+                        R = set()
+                        for x in nxt0:
+                            if x != bb:
+                                R |= fill.reachable(x, removed_blocks=[bb])
+                        if not (R & (start_bbs | set(fill.return_blocks()))):
+                            continue
+                        for X in sorted(R):
+                            if fill.blocks[X]["term"]["k"] != "switch" or bb not in fill.reachable(X, removed_blocks=list(start_bbs)):
+                                continue
+                            for (tgt, e, pol, v) in switch_edge_conds(fill, X):
+                                if tgt == bb or bb in fill.reachable(tgt, removed_blocks=list(start_bbs)):
+                                    continue  # stays in the walk
+                                co = cmp_op(deep_strip(e)) if isinstance(deep_strip(e), tuple) else None
+                                if not co or co[0] not in ("Eq", "Ne") or pol is None:
+                                    continue
+                                equal = (co[0] == "Eq") == bool(pol)
+                                a, b2 = show(deep_strip(co[1])), show(deep_strip(co[2]))
+                                name = fill.local_name(L) or f"_{L}"
+                                other = b2 if name in a.split("(")[0] or a == name else (a if b2 == name else None)
+                                if equal and other is not None and "const?" in other:
+                                    rep.notes.append("C07-FILL: the inlined walk leaves on a comparison with a constant the fact base does not resolve; last-subset clause not decided")
+                                elif equal and other is not None and other not in start_txt:
+                                    verdict = False
+                                    why = f"inlined subset walk: after a step the walk leaves when `{name}` equals `{other[:60]}`, without storing that subset (it starts from `{sorted(start_txt)[0][:40] if start_txt else '?'}`)"
         if verdict is None:
             rep.notes.append(f"C07-FILL: the blocker subsets of initialise_{piece}_attacks are produced in an unrecognised form; clause not decided")
             continue
@@ -776,6 +813,10 @@ BB = "src/chess/bitboard.rs"
 _PRIME = "        current_square = current_square.east();\n\n        while current_square != end_square {\n            squares |= current_square;\n            current_square = current_square.east();\n        }\n\n        return Some(squares);"
 _NOPRIME = "        while current_square != end_square {\n            squares |= current_square;\n            current_square = current_square.east();\n        }\n\n        return Some(squares & !%s);"
 MUTANTS = [
+    {"name": "rook filler walks the subsets upwards itself and stops in front of the full subset (seed C01-8a)", "expect": "C07-FILL/rook",
+     "edits": [("src/chess/movegen/tables/magics.rs", "        let occupancy_subsets = SubsetsOf::new(occupancies);\n\n        for blockers in occupancy_subsets {\n            let idx = table_index_rook(s, blockers);\n\n            unsafe {\n                ATTACKS_TABLE[idx] = attacks::generate_rook_attacks(s, blockers);\n            }\n        }", "        let mut blockers = Bitboard::EMPTY;\n\n        while blockers != occupancies {\n            let idx = table_index_rook(s, blockers);\n\n            unsafe {\n                ATTACKS_TABLE[idx] = attacks::generate_rook_attacks(s, blockers);\n            }\n\n            blockers = (blockers - occupancies) & occupancies;\n        }")]},
+    {"name": "rook filler walks the subsets upwards itself until the walk wraps around to the empty subset", "benign": True,
+     "edits": [("src/chess/movegen/tables/magics.rs", "        let occupancy_subsets = SubsetsOf::new(occupancies);\n\n        for blockers in occupancy_subsets {\n            let idx = table_index_rook(s, blockers);\n\n            unsafe {\n                ATTACKS_TABLE[idx] = attacks::generate_rook_attacks(s, blockers);\n            }\n        }", "        let mut blockers = Bitboard::EMPTY;\n\n        loop {\n            let idx = table_index_rook(s, blockers);\n\n            unsafe {\n                ATTACKS_TABLE[idx] = attacks::generate_rook_attacks(s, blockers);\n            }\n\n            blockers = (blockers - occupancies) & occupancies;\n            if blockers == Bitboard::EMPTY {\n                break;\n            }\n        }")]},
     {"name": "walk of the same-rank case starts on the left-most square and only s1 is masked out (seed C07-7a)", "expect": "C07-BETWEEN/open-interval",
      "edits": [("src/chess/movegen/tables/between.rs", _PRIME, _NOPRIME % "s1.bb()")]},
     {"name": "walk of the same-rank case starts on the left-most square and both end squares are masked out", "benign": True,
